@@ -173,7 +173,11 @@ theorem eq_iff_str_eq {tbl : Table} (h : WF tbl) (s t : Str) :
 /-- **Ordering agrees with the string form** (the `PartialOrdAsRefStr`/`OrdAsRefStr` derives and the
 event-type enums): `cmp` is `Less`/`Greater`/`Equal` exactly when the written strings are in byte
 order / reverse order / equal; on converted values `Equal` coincides with equality of the values,
-so `Ord` is consistent with `Eq`. -/
+so `Ord` is consistent with `Eq`.
+Reading note: the model's `cmpVal v w` is DEFINED as `cmpBytes (asStr v) (asStr w)` (the derive
+expands to `self.as_ref().cmp(other.as_ref())`), so this theorem is a statement about `cmpBytes`
+against the specification's `strLt`; that the real `Ord` impls order values like their strings is
+carried by the T1 table `ord_agrees_with_strings` and the T2 comparison. -/
 theorem ord_iff_str_ord (v w : Val) :
     (cmpVal v w = .lt ↔ strLt (asStr v) (asStr w)) ∧
     (cmpVal v w = .gt ↔ strLt (asStr w) (asStr v)) ∧
@@ -273,6 +277,7 @@ example : ∃ tbl s, fromStr tbl (asStr (fromStr tbl s)) ≠ fromStr tbl s :=
 
 #print axioms fromStr_denotes
 #print axioms fromStr_unique
+#print axioms asStr_eq_written
 #print axioms canon_spec
 #print axioms asStr_fromStr_eq_canon
 #print axioms roundtrip_identity
